@@ -62,4 +62,9 @@ impl Node {
     pub async fn live_computations(&self) -> Vec<Uuid> {
         self.state.state_handles.read().await.keys().copied().collect()
     }
+
+    /// The same without waiting: `None` while the table is locked for writing (or a writer waits).
+    pub fn try_live_computations(&self) -> Option<Vec<Uuid>> {
+        self.state.state_handles.try_read().ok().map(|g| g.keys().copied().collect())
+    }
 }
